@@ -9,7 +9,9 @@
 //
 // store cases: sequences of EnsureConfigEntry / DeleteConfigEntry on a real state.Store, the
 // accept/reject verdicts and the stored set after each call, and a direct oracle (a rejected
-// write leaves the store unchanged and has a cause; an accepted write breaks no chain).
+// write leaves the store unchanged and has a cause among the chains that can reach the written
+// name; an accepted write breaks no chain). Three-deep splitter chains (regression for 2e58eb8) and
+// two-hop write sequences (regression for f9df4b1) are generated on every run.
 package main
 
 import (
